@@ -264,6 +264,9 @@ impl<'tcx> Cx<'tcx> {
                         if let Some(v) = self.enum_ref_variant(val, cty) {
                             o.push(("enum_variant", s(v)));
                         }
+                        if let Some(v) = self.ref_ref_str(val, cty) {
+                            o.push(("ev", s(format!("{:?}", v))));
+                        }
                     }
                 }
                 if let mir::Const::Val(val, _) = c.const_ {
@@ -316,6 +319,56 @@ impl<'tcx> Cx<'tcx> {
             }
         }
         None
+    }
+
+    /// promoted `&&str` constants (e.g. the right-hand side of `ext == TXTPP_EXT`): the string
+    fn ref_ref_str(&self, val: mir::ConstValue, ty: Ty<'tcx>) -> Option<String> {
+        let inner = match ty.kind() {
+            ty::Ref(_, t, _) => *t,
+            _ => return None,
+        };
+        match inner.kind() {
+            ty::Ref(_, t, _) if t.is_str() => {}
+            _ => return None,
+        }
+        let ptr = match val {
+            mir::ConstValue::Scalar(rustc_middle::mir::interpret::Scalar::Ptr(p, _)) => p,
+            _ => return None,
+        };
+        let (prov, off) = ptr.prov_and_relative_offset();
+        let alloc = match self.tcx.global_alloc(prov.alloc_id()) {
+            rustc_middle::mir::interpret::GlobalAlloc::Memory(m) => m,
+            _ => return None,
+        };
+        let a = alloc.inner();
+        let start = off.bytes() as usize;
+        if a.len() < start + 16 {
+            return None;
+        }
+        let raw = a.inspect_with_uninit_and_ptr_outside_interpreter(start..start + 16);
+        let mut inner_off: u64 = 0;
+        let mut len: u64 = 0;
+        for i in 0..8 {
+            inner_off |= (raw[i] as u64) << (8 * i);
+            len |= (raw[8 + i] as u64) << (8 * i);
+        }
+        let mut target = None;
+        for (o, p) in a.provenance().ptrs().iter() {
+            if o.bytes() as usize == start {
+                target = Some(p.alloc_id());
+            }
+        }
+        let talloc = match self.tcx.global_alloc(target?) {
+            rustc_middle::mir::interpret::GlobalAlloc::Memory(m) => m,
+            _ => return None,
+        };
+        let ta = talloc.inner();
+        let (b, e) = (inner_off as usize, (inner_off + len) as usize);
+        if e > ta.len() {
+            return None;
+        }
+        let bytes = ta.inspect_with_uninit_and_ptr_outside_interpreter(b..e);
+        String::from_utf8(bytes.to_vec()).ok()
     }
 
     fn rvalue(&self, owner: DefId, body: &mir::Body<'tcx>, rv: &Rvalue<'tcx>) -> J {
